@@ -319,7 +319,7 @@ theorem solo_self {i : Inst} {s1 s2 : Sys} (hr : SoloRel i s1 s2) (c : SysCall) 
       subst this
       simp only [sysStep, targetObj]
       rw [h1]
-      by_cases ha : (s2.inst i).refs ≠ 0
+      by_cases ha : (s2.inst j).refs ≠ 0
       · rw [if_pos ha, if_pos ha]
         refine ⟨⟨by simp, ?_⟩, rfl⟩
         simp [getCfg_putCfg_same, h2]
@@ -333,16 +333,16 @@ theorem solo_self {i : Inst} {s1 s2 : Sys} (hr : SoloRel i s1 s2) (c : SysCall) 
       subst this
       simp only [sysStep, targetObj]
       rw [h1]
-      by_cases ha : (s2.inst i).refs ≠ 0
+      by_cases ha : (s2.inst j).refs ≠ 0
       · rw [if_pos ha, if_pos ha]
         by_cases hs : safe = true
         · simp only [hs, if_true]
           exact ⟨⟨h1, h2⟩, rfl⟩
         · -- an unsafe change of the configuration of a live decoder is out-of-protocol in both
-          have u1 : inUse s1 (s1.cfgOf i) = true := by
-            cases i <;> simp [inUse, Sys.cfgOf, Sys.inst] at h1 ha ⊢ <;> simp [h1, ha]
-          have u2 : inUse s2 (s2.cfgOf i) = true := by
-            cases i <;> simp [inUse, Sys.cfgOf, Sys.inst] at ha ⊢ <;> simp [ha]
+          have u1 : inUse s1 (s1.cfgOf j) = true := by
+            cases j <;> simp [inUse, Sys.cfgOf, Sys.inst] at h1 ha ⊢ <;> simp [h1, ha]
+          have u2 : inUse s2 (s2.cfgOf j) = true := by
+            cases j <;> simp [inUse, Sys.cfgOf, Sys.inst] at ha ⊢ <;> simp [ha]
           simp only [hs, u1, u2, if_true, if_false, Bool.false_eq_true]
           exact ⟨⟨h1, h2⟩, rfl⟩
       · rw [if_neg ha, if_neg ha]
